@@ -39,6 +39,10 @@ def decide(run: core.Run, rule: str, search):
     if not lean.get("proofs_ok"):
         broken.append({"what": "proof", "detail": f"TucanProofs.Props.{prop} does not build or audit",
                        "log": lean.get("log", "")[-3000:], "failed_at": lean.get("failed_decls")})
+    if lean and not lean.get("tables_ok", True):
+        broken.append({"what": "tables", "detail": "tools/extract_tables.py failed: the tables and the grammar could not be "
+                       "regenerated from the working tree, so the proofs were not re-checked against what the source says now",
+                       "log": lean.get("log", "")[-3000:]})
     if lean.get("bad_axioms"):
         broken.append({"what": "axioms", "detail": f"theorems depend on axioms outside the allowed set: {lean['bad_axioms']}"})
     if lean.get("forbidden"):
@@ -170,7 +174,14 @@ def main():
     ap.add_argument("--replay")
     a = ap.parse_args()
     if a.replay:
-        sys.exit(replay(a.replay))
+        try:
+            rc = replay(a.replay)
+        except SystemExit:
+            raise
+        except Exception:
+            traceback.print_exc()
+            rc = 2
+        sys.exit(rc)
     prop = a.property
     seed = int(os.environ.get("VERIF_SEED", "0") or 0)
     tier = a.tier if a.tier in ("quick", "thorough") else "quick"
@@ -186,6 +197,7 @@ def main():
             if rcl != 0:
                 lines.append(f"VIOLATION property={prop} replay={core.write_replay(prop, 'leanchecker', {'property': prop, 'no_longer_checks': [{'what': 'leanchecker', 'detail': out[-2000:]}]})} no-failing-input-found")
                 rc = 1
+                nviol += 1
         core.write_evidence(run, "proof", extra, nviol)
         for l in lines:
             print(l)
